@@ -31,7 +31,16 @@ LoadTags(ev) ==
                                THEN {"comps:" \o a.names[j]} ELSE {})
                : j \in 1..n }
 
+\* L2: what a generated accessor rendered for key names[j] in a locale, with environment env (var name -> symbols)
+RenderTags(ev) ==
+    LET a == Cases[ev.case].abs
+        n == Len(a.names)
+        ast == IF ev.locale = "en" THEN a.values[ev.j] ELSE a.values[n + 1 - ev.j] IN
+    IF ev.outcome # "Ok" THEN {"render-outcome:" \o ev.outcome}
+    ELSE IF ev.out = Denote(ast, ev.env) THEN {} ELSE {"render:" \o ev.flav \o ":" \o ev.locale \o ":" \o a.names[ev.j]}
+
 Tags(ev) == IF ev.ev = "Value" THEN ValueTags(ev)
+            ELSE IF ev.ev = "Render" THEN RenderTags(ev)
             ELSE IF ev.ev = "Load" THEN LoadTags(ev)
             ELSE IF ev.ev = "Crash" THEN {"crash:" \o ev.outcome}
             ELSE {}
